@@ -746,16 +746,22 @@ fn family_registries(g: &mut G, rng: &mut Rng, thorough: bool) {
         for p in fdt_pkts(&bad, 50, 8, None).iter().take(1) {
             g.push(p, T0 + 7);
         }
-        // TOI 0 without EXT_FDT: error unless a close flag is set
-        let mut p = mk_pkt(7, None, 16, 8, true, 16, 0, 0, vec![0; 16], false, None);
-        // rewrite the TOI field (last header word before the extensions) to 0: build through the hook is not possible, so patch byte-wise
-        if let Ok(i) = parse_info(&p) {
-            if i.toi == 7 {
-                if let Some(pos) = p.iter().position(|b| *b == 7) {
-                    p[pos] = 0;
+        // TOI 0 without EXT_FDT: error unless a close flag is set.  The hook refuses to build such a
+        // packet, so the 16-bit TOI field (bytes 10..12 of this header layout) is patched to 0.
+        for close_object in [false, true] {
+            let mut p = mk_pkt(7, None, 16, 8, true, 16, 0, 0, vec![0; 16], close_object, None);
+            p[10] = 0;
+            p[11] = 0;
+            match parse_info(&p) {
+                Ok(i) if i.toi == 0 && i.fdt_id.is_none() && i.tsi == TSI => {
+                    g.push(&p, T0 + 8);
+                    g.ctx.count("registry:toi0-without-ext-fdt");
                 }
+                _ => g.ctx.count("registry:toi0-patch-failed"),
             }
         }
+        // the sender's close-session packet (A flag, TOI 0, no EXT_FDT)
+        let p = hk::new_alc_pkt_close_session(&0u128, TSI);
         g.push(&p, T0 + 8);
         g.end();
     }
